@@ -160,6 +160,7 @@ struct Ctx
         v.detail = detail;
         res.violations.push_back(v);
         res.hash = fnv_str(v.cls + "|" + v.oracle + "|" + v.detail, res.hash);
+        res.outcome_hash = fnv_str(v.cls + "|" + v.oracle, res.outcome_hash);
     }
 };
 
@@ -632,10 +633,12 @@ static void exec_transform(Ctx &c, const Op &op)
         if (m.noop_before != m.noop_after)
             c.violation("noop-modified", {prop}, op, "size 0 / zero columns is a no-op", "word " + std::to_string(first_diff_bits(m.noop_before, m.noop_after)) + " of src|dst changed");
         r.hash = fnv_vec(m.noop_after, r.hash);
+        r.outcome_hash = fnv_vec(m.noop_after, r.outcome_hash);
         c.last_out_digest = 0; // a no-op leaves the (garbage) destination as it was: nothing to compare across fills
         return;
     }
     r.hash = fnv_vec(m.out, r.hash);
+    r.outcome_hash = fnv_vec(m.out, r.outcome_hash);
     c.last_out_digest = fnv_vec(m.out, 1);
     std::vector<uint64_t> expect, expect_mid;
     std::string oname;
@@ -790,6 +793,7 @@ static void exec_merkle(Ctx &c, const Op &op)
     }
     account_main(c, op, mst, op.rows, &rst);
     r.hash = fnv_vec(out, r.hash);
+    r.outcome_hash = fnv_vec(out, r.outcome_hash);
     c.last_out_digest = fnv_vec(out, 1);
 
     if (op.rows == 1)
@@ -888,6 +892,7 @@ static void exec_copy(Ctx &c, const Op &op)
     uint64_t trip = comp ? (op.size + comp - 1) / comp : 0;
     std::vector<uint64_t> out = D.vec();
     r.hash = fnv_vec(out, r.hash);
+    r.outcome_hash = fnv_vec(out, r.outcome_hash);
     c.last_out_digest = fnv_vec(out, 1);
     if (op.size == 0)
         r.probes.insert("copy_size0");
@@ -976,6 +981,7 @@ RunResult run_plan(const Plan &p0, uint64_t garbage_salt)
             o.garbage_seed ^= garbage_salt;
     Ctx c(p);
     c.res.hash = fnv_str(p.to_json().str(), 0xcbf29ce484222325ULL);
+    c.res.outcome_hash = c.res.hash;
     c.res.shape_hash = shape_hash_of(p);
     c.res.sched_hash = 0xcbf29ce484222325ULL;
     sim::set_machine(p.machine);
@@ -1039,6 +1045,7 @@ RunResult run_plan(const Plan &p0, uint64_t garbage_salt)
     for (int s = 0; s < 2; s++)
         delete_slot(c, s, endop);
     c.res.hash = fnv_u64(c.res.violations.size(), c.res.hash);
+    c.res.outcome_hash = fnv_u64(c.res.violations.size(), c.res.outcome_hash);
     return c.res;
 }
 
@@ -1063,6 +1070,7 @@ RunResult run_plan_checked(const Plan &p)
             v.detail = "the op's output differs between the two fills";
             r.violations.push_back(v);
             r.hash = fnv_str(v.cls + v.oracle, r.hash);
+            r.outcome_hash = fnv_str(v.cls + v.oracle, r.outcome_hash);
             break;
         }
     return r;
@@ -1074,6 +1082,7 @@ js::Value result_json(const RunResult &r, bool with_detail)
     Value v = Value::Obj();
     v.set("ok", Value::Bool(r.violations.empty()));
     v.set("hash", Value::U(r.hash));
+    v.set("ohash", Value::U(r.outcome_hash));
     Value viol = Value::Arr();
     for (auto &x : r.violations)
     {
